@@ -82,9 +82,12 @@ KvVerdict(r) ==
 (* C10 *)
 \* does the hostile stream start with a frame that is a well-formed command?  (then it may
 \* legitimately change the store and the scenario is not judged on the store)
+\* (Redis matches command names without regard to case; the property does not say either way, so a stream
+\* whose verb differs from SET/GET/DEL only in case counts as "may be a command")
+Upper(b) == IF b >= 97 /\ b <= 122 THEN b - 32 ELSE b
 IsCommand(f) ==
     /\ f.t = "array" /\ Len(f.items) >= 2 /\ \A i \in 1..Len(f.items) : f.items[i].t = "bulk"
-    /\ LET verb == f.items[1].b n == Len(f.items) IN
+    /\ LET verb == [i \in 1..Len(f.items[1].b) |-> Upper(f.items[1].b[i])] n == Len(f.items) IN
          \/ (verb = <<83, 69, 84>> /\ n = 3) \/ (verb = <<71, 69, 84>> /\ n = 2) \/ (verb = <<68, 69, 76>>)
 HasCommand(stream) ==
     LET d == Drain(stream, <<>>) IN \E i \in 1..Len(d.frames) : IsCommand(d.frames[i])
